@@ -29,6 +29,16 @@ type C10World struct {
 	Events   []world.Event `json:"events"`
 	Steps    int           `json:"steps"`
 	Patch    []world.Seg   `json:"patch,omitempty"` // bytes: placed on top of the seeded image
+	// Pokes: DMA / bank switching - the host changes memory contents behind the CPU's back between two
+	// Steps (not through cpu.Memory.Set). The CPU must see whatever memory returns afterwards.
+	Pokes []C10Poke `json:"pokes,omitempty"`
+}
+
+// C10Poke is one host write into the memory image before Step At.
+type C10Poke struct {
+	At   int    `json:"at"`
+	Addr uint16 `json:"addr"`
+	Val  uint8  `json:"val"`
 }
 
 // C10Sc is a C10 scenario.
@@ -115,6 +125,23 @@ func c10World(r *world.Rng, steps int) C10World {
 	return w
 }
 
+// c10Pokes draws host writes into code that is about to be (re-)executed.
+func c10Pokes(r *world.Rng, w *C10World) {
+	if !r.Chance(1, 3) {
+		return
+	}
+	lo, hi := 0x0100, 0x0200
+	if w.Prog != nil {
+		lo, hi = int(w.Prog.Code[0].Addr), int(w.Prog.HaltAddr)+1
+	} else {
+		lo = int(w.Regs.PC)
+		hi = lo + 0x60
+	}
+	for i := r.Range(1, 6); i > 0; i-- {
+		w.Pokes = append(w.Pokes, C10Poke{At: r.Intn(w.Steps), Addr: uint16(r.Range(lo, hi)), Val: []uint8{0x00, 0x3c, 0x04, 0x76, 0xc9, 0x18, 0xed, 0xdd, r.Byte(), r.Byte()}[r.Intn(10)]})
+	}
+}
+
 func (c10) Gen(r *world.Rng, tier string, n int) interface{} {
 	sc := &C10Sc{}
 	if strings.HasSuffix(tier, "-race") {
@@ -129,6 +156,7 @@ func (c10) Gen(r *world.Rng, tier string, n int) interface{} {
 		sc.Mode = "restore"
 		steps := r.Range(20, 300)
 		sc.Worlds = []C10World{c10World(r, steps)}
+		c10Pokes(r, &sc.Worlds[0])
 		sc.Stride = 1
 		if strings.HasPrefix(tier, "thorough") && r.Chance(1, 4) {
 			sc.Worlds[0].Steps = r.Range(300, 3000)
@@ -266,6 +294,9 @@ func c10Restore(sc *C10Sc, env *Env) *Violation {
 	if v := c10ReuseObject(w, ref, &refMem, env); v != nil {
 		return v
 	}
+	if v := c10DMA(w, env); v != nil {
+		return v
+	}
 	// crash/restart at boundary k: the original continues (= ref), a CPU rebuilt
 	// from copies of the durable state must stay equal at every later boundary
 	walker := c10Machine(w)
@@ -319,6 +350,42 @@ func c10Restore(sc *C10Sc, env *Env) *Violation {
 		}
 	}
 	env.NonTrivial = true
+	return nil
+}
+
+// c10DMA: the host changes memory behind the CPU's back between Steps (DMA, bank switching). One
+// run keeps its CPU object throughout; the other throws the CPU object away at EVERY boundary and
+// builds a new one from States + pending request over the same devices (a CPU that cannot remember
+// anything about memory). Both see the same pokes; they must agree at every boundary.
+func c10DMA(w *C10World, env *Env) *Violation {
+	if len(w.Pokes) == 0 {
+		return nil
+	}
+	a := c10Machine(w) // continuous
+	b := c10Machine(w) // rebuilt before every Step
+	for k := 0; k < w.Steps; k++ {
+		for _, p := range w.Pokes {
+			if p.At == k {
+				a.Bus.Mem[p.Addr], b.Bus.Mem[p.Addr] = p.Val, p.Val
+			}
+		}
+		a.Step()
+		b.Boundary()
+		old := b.CPU
+		b.CPU = &z80.CPU{States: old.States, Memory: old.Memory, IO: old.IO, RETNHandler: old.RETNHandler, RETIHandler: old.RETIHandler,
+			Interrupt: world.CloneRequest(old.Interrupt), BreakPoints: old.BreakPoints}
+		b.StepNoBoundary()
+		sa, sb := sigOf(a), sigOf(b)
+		sb.halt = sa.halt
+		if d := sa.diff(sb); d != "" {
+			return viol("dma-coherence", "with the host rewriting memory between Steps (%d pokes), the CPU object that ran continuously differs at boundary %d from CPUs rebuilt from States before every Step (continuous!=rebuilt):%s", len(w.Pokes), k+1, d)
+		}
+	}
+	if a.Bus.Mem != b.Bus.Mem {
+		return viol("dma-coherence", "final memory images differ between the continuous and the rebuilt-every-Step run")
+	}
+	env.Fire("host-dma-pokes")
+	env.Steps += 2 * uint64(w.Steps)
 	return nil
 }
 
@@ -611,12 +678,22 @@ func c10Free(sc *C10Sc, env *Env) *Violation {
 	got := make([]c10Sig, n)
 	// the concurrent phase comes first: anything the library initialises lazily must
 	// happen on the free-running goroutines, not on this one beforehand
+	// host-owned request values shared by all CPUs of the scenario (read-only for everybody)
+	shared := map[string]*z80.Interrupt{}
+	for i := range sc.Worlds {
+		for _, e := range sc.Worlds[i].Events {
+			if k := e.Kind + "/" + e.Data; shared[k] == nil {
+				shared[k] = e.Request()
+			}
+		}
+	}
 	var wg sync.WaitGroup
 	for i := range sc.Worlds {
 		wg.Add(1)
 		go func(i int) {
 			defer wg.Done()
 			m := c10Machine(&sc.Worlds[i])
+			m.ReuseRequests, m.SharedRequests = true, shared
 			w := &sc.Worlds[i]
 			if sc.UseRun {
 				// the CPUs are inside Run concurrently: each Run is ended after exactly w.Steps Steps by a
